@@ -189,4 +189,56 @@ CHECKS = {
         "note": "Promise sets: Unbounded {} < MonotonicKeys {keys grow} < MonotonicValue {+values monotone} < BoundedValue {+value immutable} < Bounded {+finite}.",
         "technique": "decision-table extraction from impl facts + finite-domain evaluation of the type-level API",
     },
+    "C35": {
+        "text": "Partial, static; the member-id clause is decided completely: MemberId::into_tagless / from_tagless are pure projection / injection of `inner` on the MIR (no call but PhantomData's "
+                "Default), hence the untyped round trip is the identity. Sibling agreement: every SerKind impl instantiates serialize and deserialize thunks at its own T, every NetworkFor impl "
+                "forwards both halves to the same backend, every constructor of HydroNode::Network takes serialize_fn and deserialize_fn from the same <N as NetworkFor<T>> instance; the four code "
+                "templates use one codec module for serialize/deserialize, are both parametrised by the payload type slot, and pair into_tagless (demux) with from_tagless at the sender's cluster "
+                "type slot (tagged). bincode's own round trip and run-time routing are NOT decided.",
+        "note": "Templates are read with syn (token trees), callers with resolved generic arguments from MIR.",
+        "technique": "sibling-implementation cross-check on resolved callee generic arguments (rustc MIR) + template slot analysis (syn)",
+    },
+    "C21": {
+        "text": "Partial, static (state-lifetime handling, the clause \"'tick state is reset, 'static state is kept\"): every one of the ~29 operators whose table entry admits a persistence "
+                "argument is classified from its generator source (syn): direct — its write_fn matches on Persistence and on the Tick arm emits end-of-tick code that re-initialises (assign / clear / "
+                "drain) a state identifier declared by its prologue template, and emits none on the Static / wildcard arm; delegate — it takes its whole OperatorWriteOutput from another operator and "
+                "does not drop write_tick_end; restricted — it rejects all but one persistence with an error diagnostic. Unclassifiable operators are reported. The values operators compute are NOT "
+                "decided (needs a reference interpreter).",
+        "note": "Generated code itself is not analysed here (no corpus); C24.skeleton decides that tick-end code runs once per tick after all subgraphs.",
+        "technique": "generator-template analysis (syn token trees: match arms over Persistence, reset forms, prologue slots) + operator table",
+    },
+    "C23": {
+        "text": "Partial, static: a blocking input sees the whole tick input only if everything upstream finished first. Decided: the subgraph block template creates and awaits the subgraph future "
+                "inside its own block and the pivot send_push future is awaited (syn); the subgraph list the generator iterates is subgraph_toposort() in iteration order with no reordering adaptor "
+                "on its definition chain (MIR); every operator template that builds a drain future over an input (Pull::for_each / accumulate helpers, 19 templates) awaits it. Together with "
+                "C12.drive (pivot completes only after Ended + finalize). That the precomputed toposort is right for every graph is NOT decided here (C18/C19 decide necessary conditions).",
+        "note": "Template rules are keyed on interpolation slots and runtime API names, not on formatting.",
+        "technique": "generator-template analysis (syn) + definition-chain (def-use) analysis on rustc MIR",
+    },
+    "C24": {
+        "text": "Partial, static: (counter, MIR) current_tick is written only by __end_tick/constructors; __end_tick performs exactly one checked add of TickDuration::SINGLE_TICK (whose evaluated "
+                "constant is 1) on every path; schedule_subgraph(true) reaches wake_by_ref. (skeleton, syn) the one tick-closure template orders: subgraph code < schedule test over the non-lazy "
+                "deferred buffers < tick-level swaps < operators' tick-end code < a single top-level __end_tick(). (laziness, MIR evaluated over all four DelayType variants) the filter feeding "
+                "non_lazy_schedule_idents yields None exactly for TickLazy/LoopLazy; the tick-level swap set is exactly {Tick, TickLazy}; the back-buffer laziness flag is true exactly for *Lazy. "
+                "That deferred items arrive exactly one tick later (data flow through buffers) is NOT decided.",
+        "note": "Runner loop conditions (run_available re-enters run_tick iff the swapped flag was true) are decided under C27.",
+        "technique": "who-writes + must-pass-through on rustc MIR, decision-table extraction by enum-domain evaluation of MIR closures, template order analysis (syn)",
+    },
+    "C26": {
+        "text": "Partial, static (shape of the loop gate): on the MIR of emit_loop_gate with branch-guard analysis the keyword `if` is emitted exactly on the root-loop edge "
+                "(loop_parent(..).is_none()) and `while` on the nested edge, both only under non-empty gate checks; the extra back-buffer gate checks compare with DelayType::Loop (nested) and "
+                "DelayType::Tick (root) only — never a *Lazy delay (constants read from promoted MIR bodies); gated templates are `<kw> false #(|| #gate_checks)* { #child_body #(#swap_code)* }`; "
+                "mark_tick_boundary_handoffs remaps Tick->Loop and TickLazy->LoopLazy only on the loop_parent(..).is_some() edge and preserves laziness (evaluated for all variants). Fixpoint "
+                "semantics and windowing release are NOT decided.",
+        "note": "In coroutine MIR every await is a cycle, so generated code is not analysed for loop membership; the generator-side rules are.",
+        "technique": "branch-guard dominance analysis + enum-domain evaluation on rustc MIR (incl. promoted constants) + template shape (syn)",
+    },
+    "C30": {
+        "text": "Partial, static: (typing) under every admitted instantiation of every HydroNode-constructing API function a collection located in a Tick is typed Bounded; (state) in emit_core every "
+                "'static lifetime choice sits on the is_top_level()==true edge, so tick-scoped inputs get 'tick state; (deferral) the DeferTick arm of emit_core emits exactly defer_tick_lazy and no "
+                "other arm emits a deferring operator; all 7 DeferTick::defer_tick / create_source_with_initial bodies build HydroNode::DeferTick on every path; Tick::cycle returns its source "
+                "only through defer_tick and cycle_with_initial through create_source_with_initial, so a tick cycle cannot be closed within one tick. Batch semantics of the operators are NOT decided.",
+        "note": "Half-join order typing (bounded side preserves the other side's order) is decided under C29.node.",
+        "technique": "finite-domain evaluation of the type-level API + branch-guard / must-pass-through analysis on rustc MIR",
+    },
 }
